@@ -350,7 +350,7 @@ func Validate(f *File, ex Expect) []Problem {
 		groups = append(groups, group{r.Op, r.Off, r.End()})
 	}
 	for i := range offs {
-		if offs[i].Op != OpSummaryOffset {
+		if offs[i].Op != OpSummaryOffset && !(ex.AllowUnknownOps && offs[i].Op >= 0x10) {
 			v.p5("summary-offset-section", "%s record at %d after the first summary offset", OpName(offs[i].Op), offs[i].Off)
 		}
 	}
